@@ -115,3 +115,30 @@ pub proof fn lemma_moof_head_len(b: MoofBox)
     broadcast use lemma_be_bytes_len;
     lemma_mfhd_pre_len(b.mfhd);
 }
+
+// ---- emsg, decode side
+/// a NUL-terminated UTF-8 string at p: its bytes, then 0, no 0 before
+pub open spec fn cstr_at(d: Seq<u8>, p: int, s: Seq<char>) -> bool {
+    let n = utf8(s).len() as int;
+    &&& d.subrange(p, p + n) == utf8(s) && d[p + n] == 0
+    &&& forall|i: int| 0 <= i < n ==> #[trigger] d[p + i] != 0
+}
+/// emsg whose body (after the box header) starts at q, box size `size`
+pub open spec fn emsg_at(d: Seq<u8>, q: int, size: u64, b: EmsgBox) -> bool {
+    let n1 = utf8(b.scheme_id_uri@).len() as int; let n2 = utf8(b.value@).len() as int;
+    &&& b.version == d[q] && b.flags == be24(d, q + 1) && b.version <= 1
+    &&& (b.version == 0 ==> {
+            let o = q + 4 + n1 + 1 + n2 + 1;
+            &&& cstr_at(d, q + 4, b.scheme_id_uri@) && cstr_at(d, q + 4 + n1 + 1, b.value@)
+            &&& b.timescale == be32(d, o) && b.presentation_time is None && b.presentation_time_delta == Some(be32(d, o + 4))
+            &&& b.event_duration == be32(d, o + 8) && b.id == be32(d, o + 12)
+            &&& b.message_data@ == d.subrange(o + 16, q - 8 + size)
+        })
+    &&& (b.version == 1 ==> {
+            let o = q + 4 + 20;
+            &&& b.timescale == be32(d, q + 4) && b.presentation_time == Some(be64(d, q + 8)) && b.presentation_time_delta is None
+            &&& b.event_duration == be32(d, q + 16) && b.id == be32(d, q + 20)
+            &&& cstr_at(d, o, b.scheme_id_uri@) && cstr_at(d, o + n1 + 1, b.value@)
+            &&& b.message_data@ == d.subrange(o + n1 + 1 + n2 + 1, q - 8 + size)
+        })
+}
